@@ -80,6 +80,8 @@ def fam_number_line():
             x = ambient_name(I)
             v = SNum(z3.Real("value"), z3.Bool("value_is_int"))
             I.ghost.update({"x": x, "v": v})
+            I.ghost["replay"] = {"kind": "number_line", "root": None, "pt": None, "x": x,
+                                 "extra": {"name": lambda cz: cz.name_str(x)}}
             I.path.assume(z3.And(I.bi.nonempty(x), I.bi.allword(x)))      # any name accepted by Variable
             fd = prog.func("point.point_on_number_line")
 
